@@ -153,7 +153,38 @@ func (e *Env) runTx(f func(ctx sdk.Context) (string, error)) (res string) {
 		return "err"
 	}
 	write()
+	// ABCI events of the operation, in emission order (part of the determinism digest)
+	h := sha256.New()
+	for _, ev := range cctx.EventManager().ABCIEvents() {
+		h.Write([]byte(ev.Type))
+		for _, a := range ev.Attributes {
+			h.Write(a.Key)
+			h.Write([]byte{0})
+			h.Write(a.Value)
+			h.Write([]byte{1})
+		}
+	}
+	e.evDigest = h.Sum(e.evDigest[:0:0])
 	return out
+}
+
+// StateDigest hashes every key/value pair of the bridge, oracle and bank stores plus the events
+// of the last operation.
+func (e *Env) StateDigest() string {
+	h := sha256.New()
+	for _, k := range []sdk.StoreKey{e.hubKey, e.oracleKey, e.bankKey} {
+		it := e.ctx.KVStore(k).Iterator(nil, nil)
+		for ; it.Valid(); it.Next() {
+			h.Write(it.Key())
+			h.Write([]byte{0})
+			h.Write(it.Value())
+			h.Write([]byte{1})
+		}
+		it.Close()
+		h.Write([]byte{2})
+	}
+	h.Write(e.evDigest)
+	return hex.EncodeToString(h.Sum(nil))
 }
 
 func (e *Env) Exec(line string) string {
